@@ -38,6 +38,8 @@ class Contract:
     requires_assumed: dict = field(default_factory=dict)  # ghost precondition -> why it is ASSUMED (not checked) at call sites; listed in evidence
     opaque: list = field(default_factory=list)           # locals whose values are NOT modelled: statements that only compute / update them are skipped
                                                          # (sound as long as they flow only into values the contract leaves unconstrained)
+    opaque_loops: dict = field(default_factory=dict)     # loop ordinal -> {"via": local, "over": abstract list, "writes": [attrs]}: a loop that only builds the opaque
+                                                         # local `via` from the elements of `over`; skipped after SYNTACTIC side conditions (see pyexec.opaque_loop)
     inline: list = field(default_factory=list)           # module-level helper functions whose REAL bodies are executed at their call sites (no contract of their own)
     alias: dict = field(default_factory=dict)            # parameter -> path it aliases at every call site (e.g. endprog -> state.end_progs.top); checked at call sites
     floor: int = 1                                      # vacuity guard: minimum number of obligations expected
